@@ -117,6 +117,15 @@ impl BlockDecoder {
             section.compressed_size
         );
 
+        // No block may regenerate more than MAX_BLOCK_SIZE bytes, so its literals can't either.
+        // Without this check a few bytes of RLE literals could expand to 1MB.
+        if section.regenerated_size > MAX_BLOCK_SIZE {
+            return Err(DecompressBlockError::LiteralsTooLarge {
+                regenerated_size: section.regenerated_size as usize,
+                max: MAX_BLOCK_SIZE as usize,
+            });
+        }
+
         let upper_limit_for_literals = match section.compressed_size {
             Some(x) => x as usize,
             None => match section.ls_type {
